@@ -43,6 +43,8 @@ You have to disable enum or useUnderlyingTypeMethods to resolve the setting conf
 
 	if targetUnderlying {
 		innerTarget = xtype.TypeOf(target.NamedType.Underlying())
+		// The value built below has the underlying type, it cannot be returned next to an error.
+		ctx.SetErrorTargetVar(xtype.ZeroValue(target.T))
 	}
 
 	stmt, id, err := gen.Build(ctx, sourceID, innerSource, innerTarget, errPath)
